@@ -19,6 +19,7 @@ LVL = {"": 0, "root": 30, "auth": 20, "anon": 10, "bogus": 0}
 LAW = "sender-never-client-chosen"
 REFUSALS = {(403, "permission_denied"): "denied403", (400, "malformed"): "malf400",
             (409, "command_out_of_sequence"): "outofseq409", (401, "authentication_required"): "authreq401"}
+OBSERVERS = ("pub", "obob", "oroot")     # where a {data} frame was received (stored rows are labelled by topic)
 VAL = {"j": 1000, "z": 1001, "n": 1002, "o": 1003}
 
 
@@ -188,6 +189,12 @@ def fixed_scns():
             out.append(XScn("f%d" % k, init, [Op("sub", peer, as_, ""), Op("pub", peer, as_, "", head), Op("sub", "me", as_, ""),
                                               Op("pub", "me", as_, "", head), Op("sub", "chn", as_, ""), Op("pub", "chn", as_, "", head),
                                               Op("leave", peer, as_, ""), Op("pub", peer, as_, "", head), Op("pub", "sys", as_, "", head)]))
+    # a root session attached as a channel READER (on behalf of the anonymous-level user) publishing as itself: the
+    # {data} it receives back is anonymous (From blanked), the stored row is not
+    for head in ["s:n", "s:a1,m"]:
+        k += 1
+        out.append(XScn("f%d" % k, (5632, 6, 30), [Op("sub", "chn", "a7", "auth"), Op("pub", "chn", None, "", head),
+                                                   Op("pub", "chn", "a6", "", head), Op("pub", "chn", "a7", "", head)]))
     return out
 
 
@@ -303,6 +310,8 @@ def compare(sc, rows, mouts):
             if len(r["stored"]) != 1:
                 return (k, "model: one message stored; implementation stored %s" % (r["stored"],))
             for where, f, h in r["stored"] + r["data"]:
+                if f == "0" and where in OBSERVERS:
+                    f = frm          # {data} to a channel reader is sent anonymously (From blanked by prepareBroadcastableMessage)
                 if (f, h) != want:
                     return (k, "model: from=%s head.sender=%s other headers [%s]; implementation at %s: from=%s head.sender=%s other headers [%s]"
                             % (frm, snd, want[1][1], where, f, h[0], h[1]))
@@ -337,7 +346,14 @@ def monitor(sc, rows):
             res.append(("pre-login-refused", k, "{pub} before login stored/delivered %s" % (recs,)))
         if op.as_ is not None and lvl != 30 and recs:
             res.append(("as-user-root-only", k, "non-root session (level %d) supplied extra.obo and the message was stored/delivered: %s" % (lvl, recs)))
+        stored_from = r["stored"][0][1] if len(r["stored"]) == 1 else None
         for where, frm, (snd, others) in recs:
+            if frm == "0" and where in OBSERVERS:
+                # {data} delivered to a channel reader carries no From (topic.go prepareBroadcastableMessage: channel
+                # messages are sent anonymously); the author is the one recorded on the stored row
+                if stored_from is None:
+                    continue
+                frm = stored_from
             if frm != str(who) and lvl != 30:
                 res.append(("acts-as-session-user", k, "message at %s attributed to user %s by a level-%d session of user %d" % (where, frm, lvl, who)))
             want = "-" if frm == str(who) else str(who)
@@ -459,5 +475,5 @@ def run_layer(ctx, replay_scns=None):
         "scenarios": len(scns), "pub_requests": npub, "model_outcomes": outcomes, "stored_by_route_and_topic": routes,
         "stored_by_session_kind": kinds, "distinct_stored_with_supplied_sender": len(nt),
         "correspondence_mismatches": len(mism), "monitor_failures": sum(len(v) for v in fails.values()),
-        "rule": "37 fixed boundary histories (pub to sys unsubscribed / sub grp / pub grp / pub sys, root: on behalf and channel; p2p / me / channel-reader / after leave for alice at level auth and root, bob, root on behalf of alice) + seeded random histories of 1-6 {sub}/{leave}/{pub} on sessions of alice, bob (auth), an anonymous-level user, root (with and without extra.obo, incl. obo = itself and junk), a few pre-handshake / unauthenticated / unreachable states; topics sys, group, p2p, me, fnd, channel (chn and grp names), unknown, malformed; head absent, {}, sender = another user / own user / junk string / empty string / number / object, with and without other headers",
+        "rule": "39 fixed boundary histories (pub to sys unsubscribed / sub grp / pub grp / pub sys, root: on behalf and channel; p2p / me / channel-reader / after leave for alice at level auth and root, bob, root on behalf of alice) + seeded random histories of 1-6 {sub}/{leave}/{pub} on sessions of alice, bob (auth), an anonymous-level user, root (with and without extra.obo, incl. obo = itself and junk), a few pre-handshake / unauthenticated / unreachable states; topics sys, group, p2p, me, fnd, channel (chn and grp names), unknown, malformed; head absent, {}, sender = another user / own user / junk string / empty string / number / object, with and without other headers",
     }
